@@ -18,8 +18,11 @@ RULE = ("pair lists written with the real writer and read back with Find / FindS
         "cdbmake texts (valid and malformed) fed to Make alone (model only, not held against the spec); "
         "non-trivial = distinct (kind, class, pairs / generator parameters / text) with at least one pair or a rejected text")
 TRUSTED_BASE = [
-    "the hash function enters the model as a parameter H (theorems hold for every H); the harness reports the observed "
-    "spooky.Hash32 value of every key and checks that the writer-side streaming hash (spooky.New(0,0)+Write+Sum32) agrees with it",
+    "the hash function enters the model as ONE parameter H used by writer, Make and reader (theorems hold for every H); "
+    "in the Go code writer/Make hash with the streaming hasher cdbHash() and the reader with hashKey() - that these two code "
+    "paths compute the same function is NOT proved, it is established only by the differential run: the harness supplies the "
+    "writer-side hash of every key (checked against the hash stored in the file's slots) and every present key "
+    "(all lengths 90..200 in every run, where one-shot and streaming spooky differ) must be found by the real reader",
     "not modelled: os.File / bufio / mmap (portablemmap) I/O; the file is the byte list the writer produced, read back by the "
     "harness; Dump's and Make's bufio handling is exercised only by the correspondence run (record headers straddling "
     "4096-byte offsets are part of every run)",
